@@ -481,7 +481,7 @@ def variants(sch, rng, kind, base, exhaustive):
 def unknown_enum_pairs(sch, rng, kind, base):
     """(tag, reference document, document with an unknown enumeration string / algorithm): the two must parse
     to the same value.  What the reference is says what the code does with the unknown value."""
-    out = []
+    out, lists = [], {}
     for ev, path, ctx in walk(sch, kind, base, {}, [], {}):
         if ev == "enum":
             unk = S(rng.choice(UNKNOWN_ENUM))
@@ -505,6 +505,21 @@ def unknown_enum_pairs(sch, rng, kind, base):
         elif ev == "alg" and ctx.get("list") is not None:
             unk = rng.choice([I(-1), I(-2), S("-1"), num("-1.0"), I(999), I(-65536), I(1 << 40)])
             out.append(("alg-dropped", edit_at(base, ctx["list"], lambda _n: None), edit_at(base, path, lambda _n: unk)))
+            lists.setdefault(tuple(ctx["list"][:-1]), ("alg", list(path[len(ctx["list"]):])))
+        if ev == "enum" and ctx.get("elem_lenient"):
+            lists.setdefault(tuple(path[:-1]), ("enum", []))
+    # a list in which EVERY entry is unknown parses like the empty list (entries are dropped one by one, nothing is special
+    # about dropping the last one)
+    for lp, (what, tail) in lists.items():
+        lp = list(lp)
+        node = get_at(base, lp)
+        if node[0] != "arr" or not node[1]:
+            continue
+        var = base
+        for i in range(len(node[1])):
+            unk = S(rng.choice(UNKNOWN_ENUM)) if what == "enum" else rng.choice([I(-1), I(999), I(1 << 40)])
+            var = edit_at(var, lp + [i] + tail, lambda _n, unk=unk: unk)
+        out.append(("all-entries-unknown:%s" % what, edit_at(base, lp, lambda _n: A([])), var))
     return out
 
 
